@@ -42,7 +42,7 @@ theorem C04_children_prefix_free (k : KeyPath) (a b : Nat) (hab : a ≠ b) (s t 
     List.cons.injEq] at h
   exact hab h.1
 
-theorem C04_vmap_element_key (axes : List Bool) (as : List Val) (i ik : In) (k : Nat)
+theorem C04_vmap_element_key (axes : List Ax) (as : List Val) (i ik : In) (k : Nat)
     (h : vmapElem axes as i k = .ok ik) : ik.key = i.key.child k := by
   simp only [vmapElem, bind_ok, pure_ok] at h
   obtain ⟨_, _, _, _, rfl⟩ := h
